@@ -758,6 +758,45 @@ impl Ctx {
                 ev.insert("hash".into(), json!(format!("{h:016x}")));
                 ev.insert("outcome".into(), json!("ok"));
             }
+            #[cfg(feature = "hooks")]
+            "probe_val" => {
+                // the crate's own slot decision for every value length in [from, to], run-length encoded
+                let from = op["from"].as_u64().ok_or("from")? as usize;
+                let to = op["to"].as_u64().ok_or("to")? as usize;
+                let mut runs: Vec<(usize, usize, u32, u32)> = vec![]; // (lo, hi, slot, enc) built downwards
+                abyssiniandb::filedb::verif::value_slot_sweep(to, from, &mut |len, enc, _need, slot| {
+                    match runs.last_mut() {
+                        Some(r) if r.2 == slot && r.3 == enc && r.0 == len + 1 => r.0 = len,
+                        _ => runs.push((len, len, slot, enc)),
+                    }
+                });
+                runs.reverse();
+                ev.insert("from".into(), json!(from));
+                ev.insert("to".into(), json!(to));
+                ev.insert("runs".into(), Value::Array(runs.iter().map(|r| json!([r.0, r.1, r.2, r.3])).collect()));
+                ev.insert("outcome".into(), json!("ok"));
+            }
+            #[cfg(feature = "hooks")]
+            "probe_key" => {
+                let from = op["from"].as_u64().ok_or("from")? as usize;
+                let to = op["to"].as_u64().ok_or("to")? as usize;
+                let voff = op["voff"].as_u64().ok_or("voff")?;
+                let nxt = op["nxt"].as_u64().ok_or("nxt")?;
+                let mut runs: Vec<(usize, usize, u32, u32)> = vec![];
+                for len in from..=to {
+                    let (enc, _need, slot) = abyssiniandb::filedb::verif::key_slot(len, voff, nxt);
+                    match runs.last_mut() {
+                        Some(r) if r.2 == slot && r.3 == enc && r.1 + 1 == len => r.1 = len,
+                        _ => runs.push((len, len, slot, enc)),
+                    }
+                }
+                ev.insert("from".into(), json!(from));
+                ev.insert("to".into(), json!(to));
+                ev.insert("voff".into(), json!(voff));
+                ev.insert("nxt".into(), json!(nxt));
+                ev.insert("runs".into(), Value::Array(runs.iter().map(|r| json!([r.0, r.1, r.2, r.3])).collect()));
+                ev.insert("outcome".into(), json!("ok"));
+            }
             "mark" | "reset" | "new_process" | "kill_here" | "note" | "load" => {
                 for (k, x) in op.as_object().unwrap() {
                     if k != "op" { ev.insert(k.clone(), x.clone()); }
